@@ -690,6 +690,16 @@ func c08Run(t *testing.T, cfg c08Cfg, h []int) (res seqx.Result) {
 						}
 					}
 				}
+				// ... or this send is the consequence of such a stale flush: an instance whose peer wait is not shorter
+				// than group_interval re-sent an overtaken listing shortly before (it is in the log now), and this
+				// instance corrects it
+				for _, q := range att {
+					qpos := int(q.Instance[2] - '0')
+					if q.OK && q.Instance != d.Instance && q.Integ == d.Integ && q.GroupKey == d.GroupKey && q.At < d.At && q.At > d.Tick &&
+						time.Duration(qpos)*meshPeerTimeout >= mc.gi && q.String()[len(fmt.Sprint(q.At)):] != d.String()[len(fmt.Sprint(d.At)):] {
+						sig = "cluster-stale-flush-sent-after-newer-notification/peer-wait>=group_interval"
+					}
+				}
 				res.Viol, res.Desc = sig, fmt.Sprintf("%s (position %d, peer wait %v, group_interval %v) sent %s (flush tick %v) in a healthy cluster; union: %s", d.Instance, pos, wait, mc.gi, d.String(), d.Tick, strings.Join(ol, " ; "))
 				return
 			}
